@@ -69,7 +69,7 @@ theorem gen_asyncgen_frame_state (s : St) (pro pos : Nat) :
   cases ph <;> cases f <;>
     simp [_asyncgen_frame_state, viewOf, expose, inspectOf, agenFrameState, Phase.isSusp, pyType, codeOf,
       ObjView.getFrame, ObjView.getCode, ObjView.getSuspendedOr, ObjView.owns, PyType.pfx, deref, IState.str,
-      _RETURN_GENERATOR, opmapGet, h1, h2, h3, bind, Except.bind, pure, Except.pure]
+      opmapGet, h1, h2, h3, bind, Except.bind, pure, Except.pure]
 
 /-- the < 3.12 fallback of `_asyncgen_frame_state` (no `ag_suspended`): `f_back` decides between
     suspended and executing -/
@@ -87,7 +87,7 @@ theorem gen_asyncgen_frame_state_pre312 (s : St) (pro pos : Nat) :
   cases ph <;> cases f <;>
     simp [_asyncgen_frame_state, viewOf, expose, inspectOf, agenFrameStateFallback, Phase.isSusp, pyType, codeOf,
       ObjView.getFrame, ObjView.getCode, ObjView.getSuspendedOr, ObjView.owns, PyType.pfx, deref, IState.str,
-      _RETURN_GENERATOR, opmapGet, h1, h2, h3, bind, Except.bind, pure, Except.pure]
+      opmapGet, h1, h2, h3, bind, Except.bind, pure, Except.pure]
 
 /-- `coro_get_frame` returns the object's frame, whatever its kind -/
 theorem gen_coro_get_frame (k : Kind) (s : St) (pro pos : Nat) :
